@@ -64,15 +64,14 @@ fn full_alphabet() -> Vec<Op> {
 
 pub fn suites(check: &str, thorough: bool) -> (Vec<SeqSuite>, String) {
     let caps4 = vec![Cap::B(0), Cap::B(1), Cap::B(2), Cap::Unbounded];
-    let caps3 = vec![Cap::B(0), Cap::B(1), Cap::Unbounded];
-    match check {
+        match check {
         "C18" => {
             let mut v = vec![SeqSuite {
                 name: "c18-full",
                 alphabet: full_alphabet(),
                 depth: if thorough { 4 } else { 3 },
-                caps: if thorough { caps3.clone() } else { caps4.clone() },
-                flavours: if thorough { vec![(S, S), (A, A)] } else { vec![(S, S), (A, A), (S, A), (A, S)] },
+                caps: caps4.clone(),
+                flavours: if thorough { vec![(S, S), (A, A), (S, A)] } else { vec![(S, S), (A, A), (S, A), (A, S)] },
                 class: Class::DL,
                 ctor: S,
                 observe: true,
@@ -141,14 +140,14 @@ pub fn suites(check: &str, thorough: bool) -> (Vec<SeqSuite>, String) {
                     }
                     a
                 },
-                depth: if thorough { 7 } else { 5 },
+                depth: if thorough { 6 } else { 5 },
                 caps: vec![Cap::B(1)],
-                flavours: vec![(S, S), (A, A), (S, A)],
+                flavours: vec![(S, S), (A, A), (S, A), (A, S)],
                 class: Class::P,
                 ctor: S,
                 observe: true,
             }],
-            "every sequence up to length 5 (thorough 7) of clone / clone_sync|clone_async / to_sync|to_async / drop / close over both sides and both flavours, sender_count and receiver_count (and all other observers) read after every step; ledger of live handles = the reference model".into(),
+            "every sequence up to length 5 (thorough 6) of clone / clone_sync|clone_async / to_sync|to_async / drop / close over both sides and both flavours, sender_count and receiver_count (and all other observers) read after every step; ledger of live handles = the reference model".into(),
         ),
         "C16" => (
             vec![
